@@ -9,6 +9,7 @@ CONSTANTS
   MAXCELLS = 4
   FIXED_CREATE = FALSE
   COMMIT_FIRST = FALSE
+  MAY_MOVE = TRUE
   CRASHES = 1
 INVARIANT TypeOK
 INVARIANT DurableInv
